@@ -8,6 +8,7 @@ compiler output by the driver; `closedB_iff` says the procedure is the statement
 in a closed flow no path ends because of a structural fault.
 -/
 import Rpft.Flow
+import Rpft.Lemmas.Compile
 set_option linter.unusedSimpArgs false
 set_option linter.unusedVariables false
 namespace Rpft.Props.C01
@@ -80,6 +81,37 @@ theorem closed_choice_defined (f : Flow.Flow) (h : Closed f) :
           exact fin _ (htime t (by simp [Router.timeoutCats]))
         | some none, hc, _ => simp at hc; omega
         | none, hc, _ => simp at hc; omega
+
+/-! ### the compiler model (Rpft/Compile.lean, tied to the real parser by exact comparison) -/
+
+/-- No internal marker reaches the document: the hard-exit sentinel renders as "leads nowhere",
+and whatever an exit renders to is the identifier of the node it points to. -/
+theorem render_no_sentinel (d : Compile.Dest) :
+    Compile.renderDest .hard = none ∧
+    (∀ u, Compile.renderDest d = some u → d = .node u) := by
+  refine ⟨rfl, ?_⟩
+  intro u h
+  cases d with
+  | none => simp [Compile.renderDest] at h
+  | hard => simp [Compile.renderDest] at h
+  | node v => simp [Compile.renderDest] at h; rw [h]
+
+/-- Identifiers the compiler model invents are `~n` for the value of its counter, the counter
+only grows, and different counter values give different identifiers: an invented identifier
+is never handed out twice. -/
+theorem invented_ids_distinct (s : Compile.St) (a b : Nat) (h : a ≠ b) :
+    ('~' :: Compile.natStr a) ≠ ('~' :: Compile.natStr b) ∧
+    Compile.fresh.run s = .ok ('~' :: Compile.natStr s.next, { s with next := s.next + 1 }) := by
+  refine ⟨?_, Compile.fresh_spec s⟩
+  intro he
+  injection he with _ ht
+  exact h (Compile.natStr_injective ht)
+
+/-- Updating destinations never changes which categories a router has, so cases keep naming
+categories of their own router (`mapCats` is the only way the model rewrites categories). -/
+theorem case_categories_stable (r : Compile.SwitchR) (f : Compile.Cat → Compile.Cat)
+    (hf : ∀ c, (f c).uid = c.uid) (h : Compile.CaseCatsOk r) : Compile.CaseCatsOk (r.mapCats f) :=
+  Compile.caseCatsOk_mapCats r f hf h
 
 /-! ### non-vacuity and negative witnesses -/
 
